@@ -987,10 +987,10 @@ Qed.
 Open Scope string_scope.
 Definition example_source : source :=
   [DText (IKeyword (BQty QTransitionVariable 2));
-   DFor "?c" [TokName [Lit "a"]; TokName [Lit "b"]] ; DText (IQty [Lit "Var "; Ctl "?c" VPlain] [Lit "y_"; Ctl "?c" VPlain]); DEnd;
-   DText (IKeyword (BQty QTransitionShock 0)); DText (IQty [] [Lit "e"]);
-   DText (IKeyword (BQty QParameter 0)); DText (IQty [] [Lit "rho"]);
-   DText (IKeyword (BLog true 0)); DText (ILog [Lit "y_a"]);
+   DFor "?c" [TokName [Lit "a"]; TokName [Lit "b"]] ; DText (IQty [Lit "Var "; Ctl "?c" VPlain] [Lit "y_"; Ctl "?c" VPlain] (Some "g")); DEnd;
+   DText (IKeyword (BQty QTransitionShock 0)); DText (IQty [] [Lit "e"] None);
+   DText (IKeyword (BQty QParameter 0)); DText (IQty [] [Lit "rho"] None);
+   DText (IKeyword (BLog false 0)); DText (ILogList "g");
    DText (IKeyword (BEqn KTransition 0));
    DFor "?c" [TokName [Lit "a"]; TokName [Lit "b"]];
      DText (IEqn [] (mkSide (EName [Lit "y_"; Ctl "?c" VPlain] (ShZ 0 Curly)) false
@@ -1003,7 +1003,7 @@ Definition example_source : source :=
 Example example_compiles :
   compile [] true 100 example_source =
   COk (mkModel
-    [mkQ "y_a" QTransitionVariable "Var a" (Some false); mkQ "y_b" QTransitionVariable "Var b" (Some true);
+    [mkQ "y_a" QTransitionVariable "Var a" (Some true); mkQ "y_b" QTransitionVariable "Var b" (Some true);
      mkQ "e" QTransitionShock "" None; mkQ "ant_e" QAnticipatedShockValue "(Anticipated value) e" None;
      mkQ "rho" QParameter "" None; mkQ "std_e" QTransitionStd "(Std) e" None]
     [CBin Add (CBin Add (CNeg (CName 0 0)) (CBin Mul (CName 4 0) (CBin Sub (CName 0 (-1)) (CName 0 (-2)))))
